@@ -110,9 +110,11 @@ Fixpoint cmp_spec (s i : list obs) : bool * bool :=
   end.
 
 Definition run_case (fuel : nat) (M : module) (P : program) (cs : list call) (impl : list obs) : Z :=
+  match impl with OSkip _ :: _ => 12 | _ =>
   let '(mok, mskip) := cmp_model (model_history fuel P (vm_init P) cs) impl in
   let '(sok, sskip) := cmp_spec (spec_history fuel M [] cs) impl in
-  (if mok then 0 else 1) + (if sok then 0 else 2) + (if mskip then 4 else 0) + (if sskip then 8 else 0).
+  (if mok then 0 else 1) + (if sok then 0 else 2) + (if mskip then 4 else 0) + (if sskip then 8 else 0)
+  end.
 
 (** model only (programs outside the reference language) *)
 Definition run_case_model (fuel : nat) (P : program) (cs : list call) (impl : list obs) : Z :=
@@ -143,3 +145,10 @@ Definition opt_case (P Popt : program) : Z :=
   | OUnmodelled => 256
   end.
 (** value and globals of the two runs of the implementation must coincide: handled by the harness through two run cases *)
+
+(** ---- programs with a known expected observation list (self-checking programs): bit 1 model vs implementation,
+    bit 2 implementation vs expectation, bit 4 model skipped *)
+Definition run_case_expect (fuel : nat) (P : program) (cs : list call) (impl expected : list obs) : Z :=
+  let '(mok, mskip) := cmp_model (model_history fuel P (vm_init P) cs) impl in
+  let '(sok, _) := cmp_spec expected impl in
+  (if mok then 0 else 1) + (if sok then 0 else 2) + (if mskip then 4 else 0).
